@@ -88,17 +88,18 @@ impl Function for Snakecase {
             .map(|arr| {
                 let mut boundaries = Vec::new();
                 for expr in arr {
-                    let value = expr.resolve_constant(state).ok_or_else(
-                        || -> Box<dyn DiagnosticMessage> {
-                            Box::new(ExpressionError::from(
-                                "expected static string for excluded_boundaries",
-                            ))
-                        },
-                    )?;
+                    let not_static_string = || -> Box<dyn DiagnosticMessage> {
+                        Box::new(ExpressionError::from(
+                            "expected static string for excluded_boundaries",
+                        ))
+                    };
+                    let value = expr
+                        .resolve_constant(state)
+                        .ok_or_else(not_static_string)?;
                     let boundary = into_boundary(
                         value
                             .try_bytes_utf8_lossy()
-                            .expect("cant convert to string")
+                            .map_err(|_| not_static_string())?
                             .as_ref(),
                     )?;
                     boundaries.push(boundary);
@@ -146,9 +147,7 @@ struct SnakecaseFn {
 impl FunctionExpression for SnakecaseFn {
     fn resolve(&self, ctx: &mut Context) -> Resolved {
         let value = self.value.resolve(ctx)?;
-        let string_value = value
-            .try_bytes_utf8_lossy()
-            .expect("can't convert to string");
+        let string_value = value.try_bytes_utf8_lossy()?;
 
         match &self.excluded_boundaries {
             Some(boundaries) if !boundaries.is_empty() => {
